@@ -70,6 +70,23 @@ def gen(rng, tier):
                 found += 1
                 if found == (2 if tier == "quick" else 10):
                     break
+    # directed: ed25519 nodes whose PUBLIC key starts with a zero byte (the 33-byte form 00 || A then has two leading zeros): master and a
+    # hardened child of it, so that the key, its fingerprint and the child's parent fingerprint are all observed.  Found by computing the
+    # SLIP-0010 master with hmac and the public key with the signature libraries directly
+    import nacl.signing as _ns
+    import ed25519_blake2b as _eb
+    for c in ("ed25519", "ed25519blake2b"):
+        found = 0
+        for j in range(6000):
+            seed = rng.getrandbits(256).to_bytes(32, "big")
+            il = _hmac.new(b"ed25519 seed", seed, _hl.sha512).digest()[:32]
+            a = bytes(_ns.SigningKey(il).verify_key) if c == "ed25519" else _eb.SigningKey(il).get_verifying_key().to_bytes()
+            if a[0] == 0:
+                yield Case("master", [c, hx(seed)], "pubkey-leading-zero")
+                yield Case("derive", [c, hx(seed), nats([2**31 + 7, 2**31]), 2], "pubkey-leading-zero")
+                found += 1
+                if found == (2 if tier == "quick" else 8):
+                    break
     # directed: children whose HMAC left half IL, or whose child private key, starts with a zero byte (fixed-width conversions)
     import hmac, hashlib
     for i in range(8 if tier == "quick" else 200):
@@ -137,5 +154,23 @@ def relations(rng, tier, rpt):
                         "%s seed=%s path=%s order=%s" % (c, seed.hex(), ptxt, order), str(got), str(want[c]))
                 if rnd == 0:
                     got_o.ConvertToPublic()         # what the caller does with ITS object must not reach later calls
+    # the child's key is a function of (parent key, index) only: deriving the same child again from the same parent OBJECT gives an equal
+    # and independent object, whatever the caller did to the first one (conversion to public-only), with int and index-object spellings
+    from bip_utils import Bip32KeyIndex
+    for i in range(8 if tier == "quick" else 200):
+        c = CURVES[i % len(CURVES)]
+        par = CLS[c].FromSeed(rand_seed(rng))
+        idx = rand_index(rng, True if c.startswith("ed25519") else None)
+        first = par.ChildKey(idx)
+        want = node_out(first)
+        first.ConvertToPublic()
+        n += 1
+        for what, f in (("ChildKey(int)", lambda: par.ChildKey(idx)), ("ChildKey(Bip32KeyIndex)", lambda: par.ChildKey(Bip32KeyIndex(idx))),
+                        ("DerivePath", lambda: par.DerivePath("%d%s" % (idx & 0x7fffffff, "'" if idx >= 2**31 else "")))):
+            again = f()
+            if node_out(again) != want:
+                rep("%s: the same child derived again from the same parent object differs after the caller converted the first one to public-only" % what,
+                    "%s index=%d" % (c, idx), node_out(again), want)
+                break
     rpt.extra["entry_point_equivalence_checks"] = n
     return bad[:5]
